@@ -15,7 +15,7 @@ use tvh::rng::Rng;
 use tvh::vdir::{Event, OpKind, VerifDirectory};
 use tvh::{guarded, Args};
 
-const HEADER: &str = "From TV Require Import Base.Prelude Storage.Crash Storage.ReaderGC.";
+const HEADER: &str = "From TV Require Import Base.Prelude Storage.Crash Storage.ReaderGC Storage.ReloadStore.";
 const META_LOCK: &str = ".tantivy-meta.lock";
 
 struct Reload { ids: BTreeSet<u64> }
@@ -54,12 +54,12 @@ fn main() {
     let mut rng = Rng::new(args.seed);
     let thorough = args.thorough();
     let mut out = CaseOut::new(&args.out, HEADER, 6);
-    let n_hist = if thorough { 200 } else { 30 };
+    let n_hist = if std::env::var("C05_ONLY_SHARED").is_ok() { 0 } else if thorough { 200 } else { 30 };
     let mut next_id = 0u64;
     for h in 0..n_hist {
         let len = rng.range(8, if thorough { 40 } else { 26 }) as usize;
         let ops = e1::gen_history(&mut rng, len, &mut next_id);
-        let cfg = Cfg { threads: 1 + (h % 2), merge_policy: (h % 2) as u8, stop_on_error: false };
+        let cfg = Cfg { threads: 1 + (h % 2), merge_policy: (h % 2) as u8, stop_on_error: false, replay_failed_commit: false };
         let vd = VerifDirectory::new();
         let (schema, _f) = e1::schema();
         let index = Index::create(vd.clone(), schema, IndexSettings::default()).unwrap();
@@ -150,5 +150,126 @@ fn main() {
         out.count("reloads", total_reloads as u64);
         out.count("trace_events", trace.len() as u64);
     }
+    shared_reader_schedules(&mut rng, &mut out, if thorough { 200 } else { 40 });
     out.finish(json!({"tier": args.tier, "seed": args.seed}));
+}
+
+/// Several threads reload ONE IndexReader under a schedule the harness controls: a reloading thread can be pre-empted
+/// right after it released META_LOCK (first half of reload() done: meta.json read, segments opened) and before it
+/// stores its searcher.  Events, model and theorem: coq/Storage/ReloadStore.v.
+fn shared_reader_schedules(rng: &mut Rng, out: &mut CaseOut, n: usize) {
+    use std::collections::HashMap;
+    use std::sync::{Condvar, Mutex};
+    use tantivy::{doc, TantivyDocument};
+    #[derive(Default)]
+    struct Gate { armed: Option<u64>, inside: Vec<u64>, released: Vec<u64> }
+    for it in 0..n {
+        let vd = VerifDirectory::new();
+        let (schema, f) = e1::schema();
+        let index = Index::create(vd.clone(), schema, IndexSettings::default()).unwrap();
+        let mut writer = index.writer_with_num_threads::<TantivyDocument>(1, 15_000_000).unwrap();
+        writer.set_merge_policy(Box::new(tantivy::indexer::NoMergePolicy));
+        let reader: tantivy::IndexReader = index.reader_builder().reload_policy(ReloadPolicy::Manual).try_into().unwrap();
+        let gate: Arc<(Mutex<Gate>, Condvar)> = Arc::new((Mutex::new(Gate::default()), Condvar::new()));
+        {
+            let gate = gate.clone();
+            vd.set_post_hook(Some(Arc::new(move |_vd, _seq, kind, path| {
+                if *kind != OpKind::Delete || path != META_LOCK { return; }
+                let me: Option<u64> = std::thread::current().name().and_then(|n| n.strip_prefix("rl-").and_then(|x| x.parse().ok()));
+                let Some(me) = me else { return };
+                let (m, cv) = &*gate;
+                let mut g = m.lock().unwrap();
+                if g.armed != Some(me) { return; }
+                g.armed = None;
+                g.inside.push(me);
+                cv.notify_all();
+                while !g.released.contains(&me) { g = cv.wait(g).unwrap(); }
+            })));
+        }
+        let mut evs: Vec<String> = vec![];
+        let mut looks: Vec<u64> = vec![];
+        let mut published = 0u64;
+        let mut next_t = 1u64;
+        let mut paused: Vec<u64> = vec![];
+        let mut blocked: Vec<u64> = vec![];
+        let mut handles: HashMap<u64, std::thread::JoinHandle<Result<(), String>>> = HashMap::new();
+        let mut errors: Vec<String> = vec![];
+        let len = rng.range(4, 12);
+        let mut script: Vec<u8> = (0..len).map(|_| rng.below(100) as u8).collect();
+        if it % 4 == 0 { script = vec![30, 0, 55, 90, 60, 90]; }
+        if let Ok(sc) = std::env::var("C05_SCRIPT") { script = sc.split(',').map(|x| x.parse().unwrap()).collect(); } // the textbook schedule: begin+pause, publish, reload, look, resume, look
+        macro_rules! look { () => {{
+            match e1::searcher_ids(&reader.searcher()) { Ok(ids) => { looks.push(ids.len() as u64); evs.push("Look".into()); } Err(e) => errors.push(format!("search: {e}")) }
+        }}; }
+        for r in script {
+            if r < 30 {
+                published += 1;
+                let ok = writer.add_document(doc!(f.id => published, f.tag => "t0", f.body => "w")).is_ok() && writer.commit().is_ok();
+                if !ok { errors.push("commit failed".into()); }
+                evs.push("Publish".into());
+                vd.mark("published");
+            } else if r < 60 && handles.len() < 6 {
+                let t = next_t; next_t += 1;
+                let pause = r < 50;
+                if pause { gate.0.lock().unwrap().armed = Some(t); }
+                let rd = reader.clone();
+                let h = std::thread::Builder::new().name(format!("rl-{t}")).spawn(move || match guarded(|| rd.reload()) { Ok(Ok(())) => Ok(()), Ok(Err(e)) => Err(format!("{e}")), Err(p) => Err(format!("panic: {p}")) }).unwrap();
+                // wait until the thread is pre-empted, has finished, or is evidently blocked
+                let t0 = std::time::Instant::now();
+                let mut state = "blocked";
+                // (only a pre-empted reload can make another one wait: with nobody pre-empted a slow start is waited for)
+                while t0.elapsed() < Duration::from_millis(250) || (paused.is_empty() && t0.elapsed() < Duration::from_secs(20)) {
+                    if gate.0.lock().unwrap().inside.contains(&t) { state = "paused"; break; }
+                    if h.is_finished() { state = "done"; break; }
+                    std::thread::sleep(Duration::from_micros(200));
+                }
+                gate.0.lock().unwrap().armed = None;
+                evs.push(format!("Begin {t} {pause}"));
+                vd.mark(&format!("begin {t} {state}"));
+                match state {
+                    "paused" => { paused.push(t); handles.insert(t, h); }
+                    "done" => { if let Ok(Err(e)) = h.join() { errors.push(format!("reload: {e}")); } }
+                    _ => { blocked.push(t); handles.insert(t, h); }
+                }
+                if state == "done" { look!(); }
+            } else if r < 80 && !paused.is_empty() {
+                let i = rng.below(paused.len() as u64) as usize;
+                let t = paused.remove(i);
+                if std::env::var("C05_DEBUG").is_ok() { for b in &blocked { eprintln!("it {it}: before Resume {t}: blocked thread {b} finished={}", handles.get(b).map(|h| h.is_finished()).unwrap_or(true)); } }
+                { let (m, cv) = &*gate; m.lock().unwrap().released.push(t); cv.notify_all(); }
+                if let Some(h) = handles.remove(&t) { if let Ok(Err(e)) = h.join() { errors.push(format!("reload: {e}")); } }
+                // threads that were blocked on the reload lock behind t run now
+                if paused.is_empty() { for b in blocked.drain(..) { if let Some(h) = handles.remove(&b) { let r = h.join(); if std::env::var("C05_DEBUG").is_ok() { eprintln!("joined blocked {b}: {r:?}; now {:?}", e1::searcher_ids(&reader.searcher()).map(|x| x.len())); } if let Ok(Err(e)) = r { errors.push(format!("reload: {e}")); } } } }
+                evs.push(format!("Resume {t}"));
+                vd.mark(&format!("resumed {t}"));
+                look!();
+            } else {
+                look!();
+            }
+        }
+        while !paused.is_empty() {
+            let t = paused.remove(0);
+            { let (m, cv) = &*gate; m.lock().unwrap().released.push(t); cv.notify_all(); }
+            if let Some(h) = handles.remove(&t) { let _ = h.join(); }
+            if paused.is_empty() { for b in blocked.drain(..) { if let Some(h) = handles.remove(&b) { let _ = h.join(); } } }
+            evs.push(format!("Resume {t}"));
+            look!();
+        }
+        for (_, h) in handles.drain() { let _ = h.join(); }
+        vd.set_post_hook(None);
+        if std::env::var("C05_DEBUG").is_ok() {
+            let mut txt = format!("{evs:?}\n{looks:?}\n");
+            for e in vd.log() { if e.kind != OpKind::Write && e.kind != OpKind::Flush { txt.push_str(&format!("{} {} {:?} {} {}\n", e.seq, e.thread, e.kind, e.path, e.result)); } }
+            std::fs::write(format!("/tmp/hx/out/dbg_{it}.txt"), txt).unwrap();
+        }
+        let desc = json!({"events": evs, "observed_generations": looks, "published": published});
+        for e in errors { out.spec_checked(false, json!({"what": "reload / search / commit failed in a shared-reader schedule", "err": e, "case": desc})); }
+        let back = looks.windows(2).any(|w| w[1] < w[0]);
+        out.spec_checked(!back, json!({"what": "a shared IndexReader moved back to an older commit (a pre-empted reload overwrote a more recent one)", "case": desc}));
+        let nontrivial = evs.iter().any(|e| e.starts_with("Resume")) && published >= 1;
+        out.coq_case("tie", format!("list_eqb N.eqb (rl_observed (rlrun [{}])) {}", evs.join("; "), tvh::coqfmt::ns(&looks)),
+                     json!({"what": "shared-reader reload schedule: model (ReloadStore.v, serialization as pinned from the source) vs IndexReader", "case": desc}), nontrivial);
+        out.count("shared_reader_schedules", 1);
+        if !blocked.is_empty() { out.count("schedules_with_blocked_reload", 1); }
+    }
 }
